@@ -333,6 +333,7 @@ NoKeyEnv == { <<>> }
 Bool == {TRUE, FALSE}
 OnlyFalse == {FALSE}
 AllObfs == {"simple", "swap", "split", "shuffle", "seed"}
+EdgeBytes == {0, 1, 2, 127, 128, 129, 254, 255}    \* byte values the replay simulation draws from
 RealOpCounts == 2..11        \* minByteSliceExtKeyOps + Intn(maxByteSliceExtKeyOps - minByteSliceExtKeyOps)
 RealJunkLens == 2..7         \* Intn(maxStringJunkBytes - minStringJunkBytes) + minStringJunkBytes
 RealKeyCounts == 2..5        \* minExtKeyCount + Intn(maxExtKeyCount - minExtKeyCount)
